@@ -1700,4 +1700,517 @@ theorem fieldFirst_obs (kw : List (N × V))
 
 end fieldFirst
 
+/-! ### the positional half -/
+
+/-- `parsed_keys` as a function of the positional parameters and the given arguments -/
+def keysOf (W : World N V T) : List (Param N V T) → List V → List N
+  | ps, [] => poFieldNames W ps
+  | [], _ :: _ => []
+  | p :: ps, _ :: as => if W.priv p.name then keysOf W ps as else p.name :: keysOf W ps as
+
+theorem mapM_convBy (W : World N V T) (t : Option T) (l : List V) :
+    l.mapM (convBy W t) = match l.mapM (Spec.convO W t) with
+      | some r => .ok r
+      | none => .error .perr := by
+  induction l with
+  | nil => rfl
+  | cons a l ih =>
+    simp only [List.mapM_cons, ih, convBy_eq]
+    cases Spec.convO W t a with
+    | none => rfl
+    | some x =>
+      cases List.mapM (Spec.convO W t) l <;> rfl
+
+theorem fillPo_false (W : World N V T) (ps : List (Param N V T)) (r : List V)
+    (h : fillPo W ps false = .ok r) : r = [] := by
+  induction ps with
+  | nil => simp [fillPo] at h; exact h
+  | cons p ps ih =>
+    unfold fillPo at h
+    split at h
+    · split at h
+      · cases h
+      · simp only [Bool.false_eq_true, if_false] at h; exact ih h
+    · simp only [Bool.and_false, Bool.false_eq_true, if_false] at h; exact ih h
+
+/-- when Python can bind the remaining slots from keywords and defaults, step 2 raises no AbsenceError -/
+theorem fillPo_ok (W : World N V T) (kw : List (N × V)) (ps : List (Param N V T)) (b : List V)
+    (h : bindPos kw ps [] = some b) : ∀ contig, ∃ r, fillPo W ps contig = .ok r := by
+  induction ps generalizing b with
+  | nil => intro _; exact ⟨[], rfl⟩
+  | cons p ps ih =>
+    intro contig
+    unfold bindPos at h
+    split at h
+    · cases h
+    · rename_i v hv
+      cases hb : bindPos kw ps [] with
+      | none => simp [hb] at h
+      | some b' =>
+        unfold fillPo
+        by_cases hpo : (p.posOnly && !W.priv p.name) = true
+        · simp only [hpo, if_true]
+          have hp : p.posOnly = true := by
+            simp only [Bool.and_eq_true] at hpo; exact hpo.1
+          simp only [hp, if_true] at hv
+          have hv : p.dflt = some v := by simpa using hv
+          cases hd : p.dflt with
+          | none => rw [hd] at hv; cases hv
+          | some d =>
+            simp only
+            by_cases hc : contig = true
+            · obtain ⟨r, hr⟩ := ih b' hb true
+              simp [hc, hr, Except.map]
+            · obtain ⟨r, hr⟩ := ih b' hb false
+              exact ⟨r, by simp [hc, hr]⟩
+        · simp only [hpo, Bool.false_eq_true, if_false]
+          by_cases hc : (W.priv p.name && contig) = true
+          · simp only [hc, if_true]
+            cases hd : p.dflt with
+            | none => exact ih b' hb false
+            | some d =>
+              obtain ⟨r, hr⟩ := ih b' hb true
+              simp [hr, Except.map]
+          · simp only [hc, Bool.false_eq_true, if_false]
+            exact ih b' hb false
+
+theorem posStage_eq (W : World N V T) (s : Sig N V T) (kw : List (N × V)) (ps : List (Param N V T)) :
+    ∀ (as b : List V),
+    (∀ p ∈ ps, W.priv p.name = true → p.ann = none) →
+    bindPos kw ps as = some b →
+    (s.vp = none → as.length ≤ ps.length) →
+    match Spec.convArgs W (s.vp.bind (·.2)) ps as with
+    | none => posStage W s ps as = .error .perr
+    | some cas => ∃ fill, fillPo W (ps.drop as.length) true = .ok fill ∧
+        posStage W s ps as = .ok (cas ++ fill, keysOf W ps as) := by
+  induction ps with
+  | nil =>
+    intro as b _ _ hlen
+    cases as with
+    | nil => exact ⟨[], rfl, by simp [posStage, fillPo, keysOf, poFieldNames]⟩
+    | cons a as =>
+      cases hvp : s.vp with
+      | none => have := hlen hvp; simp at this
+      | some nt =>
+        obtain ⟨n, t⟩ := nt
+        simp only [Spec.convArgs, Option.bind_some, posStage, hvp, mapM_convBy]
+        cases List.mapM (Spec.convO W t) (a :: as) with
+        | none => rfl
+        | some r => exact ⟨[], rfl, by simp [keysOf]⟩
+  | cons p ps ih =>
+    intro as b hpa hb hlen
+    cases as with
+    | nil =>
+      simp only [Spec.convArgs]
+      obtain ⟨r, hr⟩ := fillPo_ok W kw (p :: ps) b hb true
+      exact ⟨r, by simpa using hr, by simp [posStage, hr, keysOf]⟩
+    | cons a as =>
+      unfold bindPos at hb
+      split at hb
+      · cases hb
+      · cases hb' : bindPos kw ps as with
+        | none => simp [hb'] at hb
+        | some b' =>
+          have ih' := ih as b' (fun q hq => hpa q (by simp [hq])) hb'
+            (fun hv => by have := hlen hv; simp at this; omega)
+          simp only [Spec.convArgs]
+          unfold posStage
+          by_cases hpriv : W.priv p.name = true
+          · have hann := hpa p (by simp) hpriv
+            simp only [hpriv, if_true, hann, Spec.convO]
+            cases hc : Spec.convArgs W (s.vp.bind (·.2)) ps as with
+            | none => simp only [hc] at ih'; simp [ih']
+            | some cas =>
+              simp only [hc] at ih'
+              obtain ⟨fill, hf1, hf2⟩ := ih'
+              exact ⟨fill, by simpa using hf1, by simp [hf2, keysOf, hpriv]⟩
+          · simp only [hpriv, Bool.false_eq_true, if_false, convBy_eq]
+            cases hca : Spec.convO W p.ann a with
+            | none => simp
+            | some v =>
+              simp only
+              cases hc : Spec.convArgs W (s.vp.bind (·.2)) ps as with
+              | none => simp only [hc] at ih'; simp [ih']
+              | some cas =>
+                simp only [hc] at ih'
+                obtain ⟨fill, hf1, hf2⟩ := ih'
+                exact ⟨fill, by simpa using hf1, by simp [hf2, keysOf, hpriv]⟩
+
+/-- an omitted slot reads the same from both keyword dicts -/
+def Cnil (kw' ckw : List (N × V)) (p : Param N V T) : Prop :=
+  ((if p.posOnly then none else kw'.lookup p.name) <|> p.dflt)
+    = ((if p.posOnly then none else ckw.lookup p.name) <|> p.dflt)
+
+/-- the first `n` slots are filled positionally and not named again in either dict; the others read the same -/
+def PosOK (kw' ckw : List (N × V)) : List (Param N V T) → Nat → Prop
+  | [], _ => True
+  | p :: ps, 0 => Cnil kw' ckw p ∧ PosOK kw' ckw ps 0
+  | p :: ps, n + 1 => (p.posOnly = false → kw'.lookup p.name = none ∧ ckw.lookup p.name = none) ∧ PosOK kw' ckw ps n
+
+theorem bindPos_congr_nil (kw' ckw : List (N × V)) (ps : List (Param N V T)) (h : PosOK kw' ckw ps 0) :
+    bindPos kw' ps [] = bindPos ckw ps [] := by
+  induction ps with
+  | nil => rfl
+  | cons p ps ih =>
+    obtain ⟨hc, hrest⟩ := h
+    unfold bindPos
+    unfold Cnil at hc
+    rw [hc, ih hrest]
+
+theorem fillPo_po (W : World N V T) (ps : List (Param N V T)) (r : List V) (h : fillPo W ps true = .ok r)
+    (hr : r ≠ []) : ∃ q ∈ ps, q.posOnly = true := by
+  induction ps generalizing r with
+  | nil => simp [fillPo] at h; exact absurd h hr
+  | cons p ps ih =>
+    unfold fillPo at h
+    split at h
+    · rename_i hpo
+      simp only [Bool.and_eq_true] at hpo
+      exact ⟨p, by simp, hpo.1⟩
+    · split at h
+      · split at h
+        · rename_i d hd
+          cases hf : fillPo W ps true with
+          | error e => simp [hf, Except.map] at h
+          | ok r' =>
+            simp only [hf, Except.map, Except.ok.injEq] at h
+            by_cases he : r'.isEmpty = true
+            · simp [he] at h; exact absurd h hr
+            · obtain ⟨q, hq, hqp⟩ := ih r' hf (by intro h'; simp [h'] at he)
+              exact ⟨q, by simp [hq], hqp⟩
+        · exact absurd (fillPo_false W ps r h) hr
+      · exact absurd (fillPo_false W ps r h) hr
+
+theorem poFirst_head (p : Param N V T) (ps : List (Param N V T)) (h : poFirst (p :: ps) = true)
+    (q : Param N V T) (hq : q ∈ ps) (hqp : q.posOnly = true) : p.posOnly = true := by
+  simp only [poFirst, Bool.and_eq_true, Bool.or_eq_true, List.all_eq_true] at h
+  rcases h.1 with h1 | h1
+  · exact h1
+  · have := h1 q hq; simp [hqp] at this
+
+theorem poFirst_tail (p : Param N V T) (ps : List (Param N V T)) (h : poFirst (p :: ps) = true) :
+    poFirst ps = true := by
+  simp only [poFirst, Bool.and_eq_true] at h; exact h.2
+
+/-- passing the defaults step 2 appends is the same, for Python, as omitting them -/
+theorem bindPos_fill (W : World N V T) (kw : List (N × V)) (ps : List (Param N V T)) :
+    ∀ (fill : List V), poFirst ps = true → fillPo W ps true = .ok fill →
+    bindPos kw ps fill = bindPos kw ps [] := by
+  induction ps with
+  | nil => intro fill _ h; simp [bindPos]
+  | cons p ps ih =>
+    intro fill hpf h
+    have hpf' := poFirst_tail p ps hpf
+    -- the shape shared by both filling branches
+    have step : ∀ d r, p.posOnly = true → p.dflt = some d → fillPo W ps true = .ok r →
+        bindPos kw (p :: ps) (d :: r) = bindPos kw (p :: ps) [] := by
+      intro d r hp hd hr
+      rw [bindPos, bindPos]
+      simp only [hp, Bool.not_true, Bool.false_and, Bool.false_eq_true, if_false, if_true, hd]
+      rw [ih r hpf' hr]
+      rfl
+    unfold fillPo at h
+    split at h
+    · rename_i hpo
+      simp only [Bool.and_eq_true] at hpo
+      split at h
+      · cases h
+      · rename_i d hd
+        simp only [if_true] at h
+        cases hf : fillPo W ps true with
+        | error e => simp [hf, Except.map] at h
+        | ok r =>
+          simp only [hf, Except.map, Except.ok.injEq] at h
+          subst h
+          exact step d r hpo.1 hd hf
+    · split at h
+      · split at h
+        · rename_i d hd
+          cases hf : fillPo W ps true with
+          | error e => simp [hf, Except.map] at h
+          | ok r =>
+            simp only [hf, Except.map, Except.ok.injEq] at h
+            by_cases he : r.isEmpty = true
+            · simp only [he, if_true] at h; subst h; rfl
+            · simp only [he, Bool.false_eq_true, if_false] at h
+              subst h
+              obtain ⟨q, hq, hqp⟩ := fillPo_po W ps r hf (by intro h'; simp [h'] at he)
+              exact step d r (poFirst_head p ps hpf q hq hqp) hd hf
+        · rw [fillPo_false W ps fill h]
+      · rw [fillPo_false W ps fill h]
+
+/-- the raw call's positional slots: converted arguments followed by step 2's defaults, read against the dict
+`parse_data` produced, are the converted arguments read against the converted keywords -/
+theorem bindPos_final (W : World N V T) (kw' ckw : List (N × V)) (ps : List (Param N V T)) :
+    ∀ (cas fill : List V), PosOK kw' ckw ps cas.length → poFirst ps = true →
+    fillPo W (ps.drop cas.length) true = .ok fill →
+    bindPos kw' ps (cas ++ fill) = bindPos ckw ps cas := by
+  induction ps with
+  | nil => intro cas fill _ _ _; simp [bindPos]
+  | cons p ps ih =>
+    intro cas fill hok hpf hfill
+    cases cas with
+    | nil =>
+      simp only [List.length_nil, List.drop_zero, List.nil_append] at hfill hok ⊢
+      rw [bindPos_fill W kw' (p :: ps) fill hpf hfill]
+      exact bindPos_congr_nil kw' ckw (p :: ps) hok
+    | cons v cas =>
+      simp only [List.length_cons, List.drop_succ_cons] at hfill hok
+      obtain ⟨hgiven, hrest⟩ := hok
+      simp only [List.cons_append]
+      rw [bindPos, bindPos]
+      have hcond : ∀ d : List (N × V), d.lookup p.name = none → (!p.posOnly && (d.lookup p.name).isSome) = false := by
+        intro d hd; simp [hd]
+      by_cases hpo : p.posOnly = true
+      · simp only [hpo, Bool.not_true, Bool.false_and, Bool.false_eq_true, if_false]
+        rw [ih cas fill hrest (poFirst_tail p ps hpf) hfill]
+      · have hpo' : p.posOnly = false := by simpa using hpo
+        obtain ⟨h1, h2⟩ := hgiven hpo'
+        simp only [hcond kw' h1, hcond ckw h2, Bool.false_eq_true, if_false]
+        rw [ih cas fill hrest (poFirst_tail p ps hpf) hfill]
+
+/-! ### facts about `parsed_keys` -/
+
+theorem mem_poFieldNames (W : World N V T) (ps : List (Param N V T)) (x : N) :
+    x ∈ poFieldNames W ps ↔ ∃ q ∈ ps, q.name = x ∧ q.posOnly = true ∧ W.priv q.name = false := by
+  unfold poFieldNames
+  simp only [List.mem_map, List.mem_filter, Bool.and_eq_true, Bool.not_eq_true']
+  constructor
+  · rintro ⟨q, ⟨hq, h1, h2⟩, rfl⟩; exact ⟨q, hq, rfl, h1, h2⟩
+  · rintro ⟨q, hq, rfl, h1, h2⟩; exact ⟨q, ⟨hq, h1, h2⟩, rfl⟩
+
+/-- every positional-only field is in `parsed_keys` -/
+theorem po_mem_keysOf (W : World N V T) (ps : List (Param N V T)) :
+    ∀ (as : List V) (p : Param N V T), p ∈ ps → p.posOnly = true → W.priv p.name = false →
+    p.name ∈ keysOf W ps as := by
+  induction ps with
+  | nil => intro _ p hp; cases hp
+  | cons q ps ih =>
+    intro as p hp hpo hnp
+    cases as with
+    | nil =>
+      simp only [keysOf]
+      exact (mem_poFieldNames W _ _).mpr ⟨p, hp, rfl, hpo, hnp⟩
+    | cons a as =>
+      simp only [keysOf]
+      rcases List.mem_cons.mp hp with rfl | hp'
+      · simp [hnp]
+      · have := ih as p hp' hpo hnp
+        split
+        · exact this
+        · exact List.mem_cons_of_mem _ this
+
+/-- a name in `parsed_keys` belongs to a positional-only parameter or to a slot filled positionally, which
+Python's binding then refuses to see named again -/
+theorem keysOf_given (W : World N V T) (kw : List (N × V)) (ps : List (Param N V T)) :
+    ∀ (as b : List V) (x : N), bindPos kw ps as = some b → x ∈ keysOf W ps as →
+    ∃ q ∈ ps, q.name = x ∧ (q.posOnly = true ∨ kw.lookup x = none) := by
+  induction ps with
+  | nil =>
+    intro as b x _ hx
+    cases as <;> simp [keysOf, poFieldNames] at hx
+  | cons p ps ih =>
+    intro as b x hb hx
+    cases as with
+    | nil =>
+      simp only [keysOf] at hx
+      obtain ⟨q, hq, hn, hpo, _⟩ := (mem_poFieldNames W _ _).mp hx
+      exact ⟨q, hq, hn, Or.inl hpo⟩
+    | cons a as =>
+      unfold bindPos at hb
+      split at hb
+      · cases hb
+      · rename_i hcond
+        cases hb' : bindPos kw ps as with
+        | none => simp [hb'] at hb
+        | some b' =>
+          simp only [keysOf] at hx
+          have tail : x ∈ keysOf W ps as → ∃ q ∈ p :: ps, q.name = x ∧ (q.posOnly = true ∨ kw.lookup x = none) := by
+            intro h
+            obtain ⟨q, hq, h'⟩ := ih as b' x hb' h
+            exact ⟨q, by simp [hq], h'⟩
+          split at hx
+          · exact tail hx
+          · rcases List.mem_cons.mp hx with rfl | hx'
+            · refine ⟨p, by simp, rfl, ?_⟩
+              by_cases hpo : p.posOnly = true
+              · exact Or.inl hpo
+              · refine Or.inr ?_
+                have hpo' : p.posOnly = false := by simpa using hpo
+                cases hl : kw.lookup p.name with
+                | none => rfl
+                | some _ => simp [hpo', hl] at hcond
+            · exact tail hx'
+
+/-- a positional field that is not in `parsed_keys` was omitted, and Python found a keyword or a default for it -/
+theorem not_keysOf_omitted (W : World N V T) (kw : List (N × V)) (ps : List (Param N V T)) :
+    ∀ (as b : List V) (p : Param N V T), bindPos kw ps as = some b → p ∈ ps → W.priv p.name = false →
+    p.name ∉ keysOf W ps as → (kw.lookup p.name).isSome = true ∨ p.dflt.isSome = true := by
+  induction ps with
+  | nil => intro _ _ p _ hp; cases hp
+  | cons q ps ih =>
+    intro as b p hb hp hnp hnk
+    cases as with
+    | nil =>
+      simp only [keysOf] at hnk
+      unfold bindPos at hb
+      split at hb
+      · cases hb
+      · rename_i v hv
+        cases hb' : bindPos kw ps [] with
+        | none => simp [hb'] at hb
+        | some b' =>
+          rcases List.mem_cons.mp hp with rfl | hp'
+          · have hpo : p.posOnly = false := by
+              cases h : p.posOnly with
+              | false => rfl
+              | true => exact absurd ((mem_poFieldNames W _ _).mpr ⟨p, by simp, rfl, h, hnp⟩) hnk
+            simp only [hpo, Bool.false_eq_true, if_false] at hv
+            cases hl : kw.lookup p.name with
+            | some _ => simp
+            | none =>
+              rw [hl] at hv
+              have : p.dflt = some v := by simpa using hv
+              simp [this]
+          · refine ih [] b' p hb' hp' hnp ?_
+            simp only [keysOf]
+            intro hmem
+            apply hnk
+            obtain ⟨q', hq', h'⟩ := (mem_poFieldNames W _ _).mp hmem
+            exact (mem_poFieldNames W _ _).mpr ⟨q', by simp [hq'], h'⟩
+    | cons a as =>
+      unfold bindPos at hb
+      split at hb
+      · cases hb
+      · cases hb' : bindPos kw ps as with
+        | none => simp [hb'] at hb
+        | some b' =>
+          simp only [keysOf] at hnk
+          rcases List.mem_cons.mp hp with rfl | hp'
+          · simp [hnp] at hnk
+          · refine ih as b' p hb' hp' hnp ?_
+            intro hmem
+            apply hnk
+            split
+            · exact hmem
+            · exact List.mem_cons_of_mem _ hmem
+
+theorem bindKos_mem (kw : List (N × V)) (ks : List (Param N V T)) (b : List V) (h : bindKos kw ks = some b)
+    (p : Param N V T) (hp : p ∈ ks) : (kw.lookup p.name).isSome = true ∨ p.dflt.isSome = true := by
+  induction ks generalizing b with
+  | nil => cases hp
+  | cons q ks ih =>
+    unfold bindKos at h
+    split at h
+    · cases h
+    · rename_i v hv
+      cases hb' : bindKos kw ks with
+      | none => simp [hb'] at h
+      | some b' =>
+        rcases List.mem_cons.mp hp with rfl | hp'
+        · cases hl : kw.lookup p.name with
+          | some _ => simp
+          | none =>
+            rw [hl] at hv
+            have : p.dflt = some v := by simpa using hv
+            simp [this]
+        · exact ih b' hb' hp'
+
+/-- `PosOK` from what `parse_data` guarantees (`Obs`) and Python's own refusal of double binding -/
+theorem posOK_of_obs (W : World N V T) (s : Sig N V T) (kw' ckw nkw : List (N × V)) (excl : List N)
+    (hobs : ∀ p ∈ Spec.kwParams s, kw'.lookup p.name =
+      if W.priv p.name || excl.contains p.name then none else (ckw.lookup p.name).or p.dflt)
+    (hprivkey : ∀ p ∈ Spec.kwParams s, W.priv p.name = true → ckw.lookup p.name = none)
+    (hkeys : ∀ x, nkw.lookup x = none → ckw.lookup x = none)
+    (ps : List (Param N V T)) :
+    ∀ (as b : List V) (pre : List N),
+    (∀ p ∈ ps, p ∈ s.pos) → (ps.map (·.name)).Nodup → (∀ p ∈ ps, p.name ∉ pre) →
+    excl = pre ++ keysOf W ps as → bindPos nkw ps as = some b →
+    PosOK kw' ckw ps as.length := by
+  induction ps with
+  | nil => intro _ _ _ _ _ _ _ _; trivial
+  | cons p ps ih =>
+    intro as b pre hsub hnd hpre hexcl hb
+    simp only [List.map_cons, List.nodup_cons] at hnd
+    have hsub' : ∀ q ∈ ps, q ∈ s.pos := fun q hq => hsub q (by simp [hq])
+    have hkwp : p.posOnly = false → p ∈ Spec.kwParams s := fun h =>
+      (mem_kwParams s p).mpr (Or.inl ⟨hsub p (by simp), h⟩)
+    cases as with
+    | nil =>
+      simp only [keysOf] at hexcl
+      unfold bindPos at hb
+      split at hb
+      · cases hb
+      · cases hb' : bindPos nkw ps [] with
+        | none => simp [hb'] at hb
+        | some b' =>
+          refine ⟨?_, ?_⟩
+          · unfold Cnil
+            by_cases hpo : p.posOnly = true
+            · simp [hpo]
+            · have hpo' : p.posOnly = false := by simpa using hpo
+              simp only [hpo', Bool.false_eq_true, if_false]
+              rw [hobs p (hkwp hpo')]
+              by_cases hpriv : W.priv p.name = true
+              · simp [hpriv, hprivkey p (hkwp hpo') hpriv]
+              · have hpriv' : W.priv p.name = false := by simpa using hpriv
+                have hnex : excl.contains p.name = false := by
+                  cases hc : excl.contains p.name with
+                  | false => rfl
+                  | true =>
+                    exfalso
+                    have hm : p.name ∈ excl := by simpa using hc
+                    rw [hexcl] at hm
+                    rcases List.mem_append.mp hm with h | h
+                    · exact hpre p (by simp) h
+                    · obtain ⟨q, hq, hqn, hqpo, _⟩ := (mem_poFieldNames W _ _).mp h
+                      rcases List.mem_cons.mp hq with rfl | hq'
+                      · rw [hqpo] at hpo'; cases hpo'
+                      · exact hnd.1 (hqn ▸ List.mem_map_of_mem hq')
+                simp only [hpriv', hnex, Bool.or_self, Bool.false_eq_true, if_false]
+                cases ckw.lookup p.name <;> simp
+          · by_cases hpf : (p.posOnly && !W.priv p.name) = true
+            · refine ih [] b' (pre ++ [p.name]) hsub' hnd.2 ?_ ?_ hb'
+              · intro q hq hmem
+                rcases List.mem_append.mp hmem with h | h
+                · exact hpre q (by simp [hq]) h
+                · simp at h; exact hnd.1 (h ▸ List.mem_map_of_mem hq)
+              · rw [hexcl]
+                simp [keysOf, poFieldNames, List.filter_cons, hpf]
+            · refine ih [] b' pre hsub' hnd.2 (fun q hq => hpre q (by simp [hq])) ?_ hb'
+              rw [hexcl]
+              simp [keysOf, poFieldNames, List.filter_cons, hpf]
+    | cons a as =>
+      simp only [keysOf] at hexcl
+      unfold bindPos at hb
+      split at hb
+      · cases hb
+      · rename_i hcond
+        cases hb' : bindPos nkw ps as with
+        | none => simp [hb'] at hb
+        | some b' =>
+          refine ⟨?_, ?_⟩
+          · intro hpo'
+            have hnl : nkw.lookup p.name = none := by
+              cases hl : nkw.lookup p.name with
+              | none => rfl
+              | some _ => simp [hpo', hl] at hcond
+            refine ⟨?_, hkeys _ hnl⟩
+            rw [hobs p (hkwp hpo')]
+            by_cases hpriv : W.priv p.name = true
+            · simp [hpriv]
+            · have hm : p.name ∈ excl := by
+                rw [hexcl]; simp [hpriv]
+              have : excl.contains p.name = true := by simpa using hm
+              simp only [this, Bool.or_true, if_true]
+          · by_cases hpriv : W.priv p.name = true
+            · refine ih as b' pre hsub' hnd.2 (fun q hq => hpre q (by simp [hq])) ?_ hb'
+              rw [hexcl]; simp [hpriv]
+            · refine ih as b' (pre ++ [p.name]) hsub' hnd.2 ?_ ?_ hb'
+              · intro q hq hmem
+                rcases List.mem_append.mp hmem with h | h
+                · exact hpre q (by simp [hq]) h
+                · simp at h; exact hnd.1 (h ▸ List.mem_map_of_mem hq)
+              · rw [hexcl]; simp [hpriv]
+
 end Utv.C08
